@@ -4,11 +4,20 @@ open Py Lean
 namespace Driver.D_pt_cc
 def handle (fn : String) (args : List Json) : String :=
   match fn with
+  | "calc_check_digit" => match args with
+    | [a0] => (do let x0 ← Wire.decStr a0; pure (Wire.respondWith Wire.encStr (Gen.pt_cc.calc_check_digit x0)) : Option String).getD "badargs"
+    | _ => "badargs"
   | "compact" => match args with
     | [a0] => (do let x0 ← Wire.decStr a0; pure (Wire.respondWith Wire.encStr (Gen.pt_cc.compact x0)) : Option String).getD "badargs"
     | _ => "badargs"
   | "format" => match args with
     | [a0] => (do let x0 ← Wire.decStr a0; pure (Wire.respondWith Wire.encStr (Gen.pt_cc.format x0)) : Option String).getD "badargs"
+    | _ => "badargs"
+  | "is_valid" => match args with
+    | [a0] => (do let x0 ← Wire.decStr a0; pure (Wire.respondWith Wire.encBool (Gen.pt_cc.is_valid x0)) : Option String).getD "badargs"
+    | _ => "badargs"
+  | "validate" => match args with
+    | [a0] => (do let x0 ← Wire.decStr a0; pure (Wire.respondWith Wire.encStr (Gen.pt_cc.validate x0)) : Option String).getD "badargs"
     | _ => "badargs"
   | _ => "nofunc"
 end Driver.D_pt_cc
